@@ -223,7 +223,8 @@ NewTransport ==                           \* SSLTransport(sock, ctx, server_host
                    tmo, broken>>
 
 Send(fn, n) ==                            \* send / sendall -> sslobj.write
-    /\ Usable /\ Budget /\ ~txClosed /\ fn \in {"send", "sendall"} /\ Begin(fn, n, "write", n)
+    /\ Usable /\ Budget /\ ~txClosed /\ ~incEof            \* (an engine that has seen EOF refuses to write)
+    /\ fn \in {"send", "sendall"} /\ Begin(fn, n, "write", n)
     /\ UNCHANGED <<cfg, last, wire, wpart, incFull, incEof, sockEof, outgoing, hs, pend, taken, mfbuf, mfUsed,
                    rxClosed, txClosed, srvHs, srvWritten, srvWrites, srvClosedTx, cliSent, srvGot, closed, stimeout,
                    tmo, broken>>
@@ -253,7 +254,7 @@ MfBuffered(n) ==                          \* BufferedReader.read(n) served from 
                    broken>>
 
 Unwrap ==                                 \* unwrap() -> sslobj.unwrap; only once everything was read
-    /\ Usable /\ Budget /\ "unwrap" \in Misc /\ ~txClosed /\ pend[1] = pend[2] /\ incFull = <<>> /\ wire = <<>> /\ wpart = 0
+    /\ Usable /\ Budget /\ "unwrap" \in Misc /\ ~txClosed /\ ~incEof /\ pend[1] = pend[2] /\ incFull = <<>> /\ wire = <<>> /\ wpart = 0
     /\ Begin("unwrap", 0, "unwrap", 0)
     /\ UNCHANGED <<cfg, last, wire, wpart, incFull, incEof, sockEof, outgoing, hs, pend, taken, mfbuf, mfUsed,
                    rxClosed, txClosed, srvHs, srvWritten, srvWrites, srvClosedTx, cliSent, srvGot, closed, stimeout,
@@ -322,6 +323,8 @@ ReadCall ==
                  /\ rxClosed' = rxClosed /\ Came("ret", k)
        ELSE IF incFull # <<>> /\ Head(incFull).kind = "alert"             \* close_notify
             THEN incFull' = Tail(incFull) /\ rxClosed' = TRUE /\ UNCHANGED <<pend, taken>> /\ Came("ret", 0)
+       ELSE IF rxClosed /\ txClosed                                   \* both directions shut down: SSL_ERROR_ZERO_RETURN
+            THEN UNCHANGED <<incFull, pend, taken, rxClosed>> /\ Came("zero", 0)
        ELSE IF rxClosed THEN UNCHANGED <<incFull, pend, taken, rxClosed>> /\ Came("ret", 0)
        ELSE IF incEof THEN UNCHANGED <<incFull, pend, taken, rxClosed>> /\ Came("eof", 0)   \* ragged EOF (also mid-record)
        ELSE UNCHANGED <<incFull, pend, taken, rxClosed>> /\ Came("want_read", 0)
@@ -340,7 +343,7 @@ Call ==
          [] cur.f = "write" -> WriteCall
          [] cur.f = "read" -> ReadCall
          [] cur.f = "unwrap" -> UnwrapCall
-    /\ pc' = IF last'.res = "eof" THEN "return" ELSE "flush"   \* any SSLError but WANT_READ/WANT_WRITE is re-raised at once
+    /\ pc' = IF last'.res \in {"eof", "zero"} THEN "return" ELSE "flush"   \* any SSLError but WANT_READ/WANT_WRITE is re-raised at once
     /\ UNCHANGED <<cfg, cur, nop, wire, wpart, incEof, sockEof, mfbuf, mfUsed, srvHs, srvWritten, srvWrites,
                    srvClosedTx, srvGot, closed, stimeout, tmo, broken, sched>>
 
@@ -393,10 +396,9 @@ RecvTimeout ==
                         E([Blank EXCEPT !.ev = "ret", !.fn = cur.fn, !.res = "exc", !.exc = "TimeoutError", !.kind = "none"]) >>
     /\ sched' = Append(sched, TmoItem)
     /\ pc' = (IF cur.fn = "init" THEN "done" ELSE "idle")
-    /\ cur' = NoCall
+    /\ cur' = NoCall /\ broken' = (broken \/ cur.fn = "mf_read")
     /\ UNCHANGED <<cfg, last, nop, wire, wpart, incFull, incEof, sockEof, outgoing, hs, pend, taken, mfbuf, mfUsed,
-                   rxClosed, txClosed, srvHs, srvWritten, srvWrites, srvClosedTx, cliSent, srvGot, closed, stimeout,
-                   broken>>
+                   rxClosed, txClosed, srvHs, srvWritten, srvWrites, srvClosedTx, cliSent, srvGot, closed, stimeout>>
 
 \* ---- the peer (environment): between API calls, or while the client is blocked in socket.recv
 EnvMay == ((pc = "idle" /\ nop \in IdleEnvAt /\ closed = 0) \/ (pc = "recv" /\ wire = <<>>)) /\ ~sockEof
@@ -431,32 +433,33 @@ RetEv(res, exc, kind, n, data) ==
     E([Blank EXCEPT !.ev = "ret", !.fn = cur.fn, !.res = res, !.exc = exc, !.kind = kind, !.n = n, !.data = data])
 Return ==
     /\ pc = "return"
-    /\ IF last.res = "eof" /\ ~(cur.f = "read" /\ cfg.suppress) /\ Bug # "ragged_silent" THEN  \* SSLError leaves the loop
-          /\ log' = Append(log, RetEv("exc", "SSLEOFError", "none", 0, <<>>))
+    /\ IF last.res = "zero" \/ (last.res = "eof" /\ ~(cur.f = "read" /\ cfg.suppress) /\ Bug # "ragged_silent")
+       THEN                                                             \* an SSLError leaves the loop
+          /\ log' = Append(log, RetEv("exc", IF last.res = "zero" THEN "SSLZeroReturnError" ELSE "SSLEOFError", "none", 0, <<>>))
           /\ pc' = (IF cur.fn = "init" THEN "done" ELSE "idle") /\ cur' = NoCall /\ mfbuf' = mfbuf
+          /\ broken' = (broken \/ cur.fn = "mf_read")   \* io.BufferedReader drops what it gathered for a read that raises
        ELSE IF cur.fn \in {"init", "sendall", "unwrap"} THEN
-          /\ log' = Append(log, RetEv("ok", "", "none", 0, <<>>)) /\ pc' = "idle" /\ cur' = NoCall /\ mfbuf' = mfbuf
+          /\ log' = Append(log, RetEv("ok", "", "none", 0, <<>>)) /\ pc' = "idle" /\ cur' = NoCall /\ mfbuf' = mfbuf /\ broken' = broken
        ELSE IF cur.fn = "send" THEN
-          /\ log' = Append(log, RetEv("ok", "", "int", last.n, <<>>)) /\ pc' = "idle" /\ cur' = NoCall /\ mfbuf' = mfbuf
+          /\ log' = Append(log, RetEv("ok", "", "int", last.n, <<>>)) /\ pc' = "idle" /\ cur' = NoCall /\ mfbuf' = mfbuf /\ broken' = broken
        ELSE IF cur.fn \in {"recv", "read"} THEN       \* _wrap_ssl_read: suppressed ragged EOF gives the int 0
           /\ log' = Append(log, IF last.res = "eof" THEN RetEv("ok", "", "int", 0, <<>>)
                                 ELSE RetEv("ok", "", "bytes", last.n, Bytes(0, taken - last.n, last.n)))
-          /\ pc' = "idle" /\ cur' = NoCall /\ mfbuf' = mfbuf
+          /\ pc' = "idle" /\ cur' = NoCall /\ mfbuf' = mfbuf /\ broken' = broken
        ELSE IF cur.fn = "recv_into" THEN
           /\ log' = Append(log, RetEv("ok", "", "int", last.n, Bytes(0, taken - last.n, last.n)))
-          /\ pc' = "idle" /\ cur' = NoCall /\ mfbuf' = mfbuf
+          /\ pc' = "idle" /\ cur' = NoCall /\ mfbuf' = mfbuf /\ broken' = broken
        ELSE                                          \* mf_read: BufferedReader.read(n) reads on until n or EOF
           LET buf == <<mfbuf[1], taken>>
               have == buf[2] - buf[1] IN
           IF have < cur.n /\ last.n > 0 /\ last.res = "ret" THEN
-             /\ mfbuf' = buf /\ pc' = "call" /\ cur' = cur /\ log' = log
+             /\ mfbuf' = buf /\ pc' = "call" /\ cur' = cur /\ log' = log /\ broken' = broken
           ELSE LET k == IF cur.n < have THEN cur.n ELSE have
                    k2 == IF Bug = "makefile_drops" /\ k > 1 THEN k - 1 ELSE k IN
              /\ log' = Append(log, RetEv("ok", "", "bytes", k2, Bytes(0, buf[1], k2)))
-             /\ mfbuf' = <<buf[1] + k, buf[2]>> /\ pc' = "idle" /\ cur' = NoCall
+             /\ mfbuf' = <<buf[1] + k, buf[2]>> /\ pc' = "idle" /\ cur' = NoCall /\ broken' = broken
     /\ UNCHANGED <<cfg, last, nop, wire, wpart, incFull, incEof, sockEof, outgoing, hs, pend, taken, mfUsed, rxClosed,
-                   txClosed, srvHs, srvWritten, srvWrites, srvClosedTx, cliSent, srvGot, closed, stimeout, tmo, broken,
-                   sched>>
+                   txClosed, srvHs, srvWritten, srvWrites, srvClosedTx, cliSent, srvGot, closed, stimeout, tmo, sched>>
 
 Done == pc = "done" \/ (pc = "idle" /\ closed > 0)
 
